@@ -101,7 +101,7 @@ def check_system(s: Any, proj: Dict[str, Any], meta: Dict[str, Any], order_desc:
     out: List[Tuple[str, str]] = []
     by_id: Dict[str, List[str]] = {}
     for k, o in s.allobjects.items():
-        d = o.docstring or ''
+        d = (o.docstring or '').split('\n')[0]
         if d.startswith('ID:'):
             by_id.setdefault(d, []).append(k)
     target: Dict[str, Any] = {}
